@@ -178,7 +178,16 @@ pub fn replay_cur(a: &mut Args, with_dump: bool) -> (Option<Qbvh<u32>>, Vec<Aabb
 pub fn exec(func: &str, a: &mut Args) -> String {
     match func {
         // `hist`: model-compared; `histo`: same dump, oracle only (operations the model does not cover yet)
-        "hist" | "histo" => replay(a, true).1,
+        // the replay runs on a watchdog thread (as `mixq` does): a hang of the real code — never seen on the unchanged tree; a
+        // corrupted tree can make `refit` / `rebalance` loop for ever — is reported as `PANIC hang` instead of stalling the run
+        "hist" | "histo" => {
+            let toks: String = a.t[a.i..].join(" ");
+            a.i = a.t.len();
+            let (tx, rx) = std::sync::mpsc::channel();
+            let th = std::thread::Builder::new().stack_size(64 << 20).spawn(move || { let mut a = Args::new(&toks); let _ = tx.send(replay(&mut a, true).1); });
+            if th.is_err() { return "PANIC spawn ;".into(); }
+            match rx.recv_timeout(std::time::Duration::from_secs(20)) { Ok(s) => s, Err(_) => "PANIC hang ;".into() }
+        }
         // simultaneous traversal of two independent trees (model-compared: histories of I/R/F only; `bvtto`: oracle only)
         "bvtt" | "bvtto" => {
             let (q1, _, _) = replay_cur(a, false);
